@@ -118,7 +118,7 @@ def run(ctx):
     rng = ctx.sub_rng("u")
     uni = universe()
     ctx.count("small_universe_size", len(uni))
-    base = rng.sample(uni, 4000 if quick else 8000)
+    base = rng.sample(uni, 4000 if quick else 30000)
     strings = []
     for v in base:
         strings.append(ref.normal(v))
@@ -126,7 +126,7 @@ def run(ctx):
             strings.append(ref.spell(v, rng))
     strings = sorted(set(strings))
     strs, bad = cmpcommon.all_pairs(ctx, "pep440", strings, key, "small_universe")
-    large = random_large(rng, 2500 if quick else 6000)
+    large = random_large(rng, 2500 if quick else 22000)
     lstr = []
     for v in large:
         lstr.append(ref.normal(v))
@@ -152,7 +152,7 @@ def run(ctx):
     ctx.distinct_extra += len(strs) + len(strs2)
     lists = []
     pool_ = strings + lstr + ["1.0.0-", "latest", "", "1..0", "x1", "1.0+"]
-    for _ in range(400 if quick else 6000):
+    for _ in range(400 if quick else 30000):
         tags = [rng.choice(pool_) for _ in range(rng.choice([1, 2, 3, 5, 9]))]
         perm = tags[:]
         rng.shuffle(perm)
